@@ -56,8 +56,8 @@ def table_map(ctx, mid, special_key=None, special_value=None):
     return PDict(base=b)
 
 
-def build(kind, edges, funcs):
-    ir, m = create_test_module(gtirb.Module.FileFormat.ELF, gtirb.Module.ISA.X64)
+def build(kind, edges, funcs, ff=gtirb.Module.FileFormat.ELF):
+    ir, m = create_test_module(ff, gtirb.Module.ISA.X64)
     _, bi = add_text_section(m, address=0x1000)
     mk = add_code_block if kind == "code" else add_data_block
     prev = mk(bi, b"\x90")
